@@ -18,8 +18,8 @@
      in_topk .. t   = max_unique_tokens unset, or at most k distinct candidates are at least as frequent as t
      candidate_counts / in_topk_counts = the same with the integer comparisons  min_occ <= cnt t <= max_occ, ... *)
 From Coq Require Import ZArith Reals List Bool Lia Sorted Permutation.
-From VZ Require Import Model.K5_Vocab Model.K5_Float Model.K6_Reindex Model.C05_Instance.
-From VZ Require Import Proofs.K5_Vocab_proofs Proofs.K5_Float_proofs Proofs.C05_proofs.
+From VZ Require Import Model.K5_Vocab Model.K5_Float Model.K6_Reindex Model.C05_Instance Model.K5_History.
+From VZ Require Import Proofs.K5_Vocab_proofs Proofs.K5_Float_proofs Proofs.C05_proofs Proofs.K5_History_proofs.
 Import ListNotations.
 Open Scope Z_scope.
 
@@ -234,6 +234,58 @@ Proof.
 Qed.
 Print Assumptions C05_ngram_kept_iff.
 
+(* (10) histories: successive fits that share their parameter objects (Model/K5_History.v).  The model is a function
+   of (configuration, corpus) — Gallina takes the excluded set by value — so what is worth stating is how a history
+   reads under that by-value semantics: the configuration the caller holds after a call is the one it passed ... *)
+Theorem C05_excluded_unchanged :
+  forall (T : Type) (eqb ltb : T -> T -> bool) (matches : T -> bool)
+         (f32div f64div : Z -> Z -> Z) (f64to32 : Z -> Z) (one64 : Z) (c : config T) (docs : list (list T)),
+  fst (fit_step T eqb ltb matches f32div f64div f64to32 one64 c docs) = c.
+Proof. exact excluded_unchanged. Qed.
+Print Assumptions C05_excluded_unchanged.
+
+(* ... hence the i-th fit of a history returns the vocabulary of the i-th corpus under the ORIGINAL configuration,
+   whatever was fitted before (to which C05_kept_iff etc. apply). *)
+Theorem C05_history_pointwise :
+  forall (T : Type) (eqb ltb : T -> T -> bool) (matches : T -> bool)
+         (f32div f64div : Z -> Z -> Z) (f64to32 : Z -> Z) (one64 : Z)
+         (corpora : list (list (list T))) (c : config T) (i : nat) (docs : list (list T)),
+  nth_error corpora i = Some docs ->
+  nth_error (fit_history T (fit_step T eqb ltb matches f32div f64div f64to32 one64) c corpora) i
+  = Some (learn_vocab T eqb ltb matches f32div f64div f64to32 one64 c docs None).
+Proof. exact history_pointwise. Qed.
+Print Assumptions C05_history_pointwise.
+
+(* the excluded collection matters only as a set: a list, a set or a frozenset with the same elements, in any order,
+   with or without repetitions, give the same dictionary and frequencies *)
+Theorem C05_excluded_extensional :
+  forall (T : Type) (eqb ltb : T -> T -> bool) (matches : T -> bool)
+         (f32div f64div : Z -> Z -> Z) (f64to32 : Z -> Z) (one64 : Z),
+  (forall a b, eqb a b = true <-> a = b) ->
+  forall (c : config T) (need : bool) (ig1 ig2 : list T) (docs : list (list T)) (d0 : option (dict T)),
+  (forall t, In t ig1 <-> In t ig2) ->
+  learn_gen T eqb ltb matches f32div f64div f64to32 one64 need (set_ignored c ig1) docs d0
+  = learn_gen T eqb ltb matches f32div f64div f64to32 one64 need (set_ignored c ig2) docs d0.
+Proof. exact learn_excluded_ext. Qed.
+Print Assumptions C05_excluded_extensional.
+
+(* what the by-value reading excludes: if the callee worked on the caller's excluded set itself
+   (fit_step_aliased: the set comes back extended by the tokens the call pruned), a later fit of the same history
+   would drop a token that meets every constraint on its own corpus.  The tie between the code and [fit_step] rather
+   than [fit_step_aliased] is the before/after comparison of the parameter objects in harness/impl/c05.py. *)
+Definition hist_cfg : config Z :=
+  {| ignored := [9]; use_regex := false; max_unique := None; min_occ := Some 2; max_occ := None;
+     min_freq := None; max_freq := None; min_dococc := None; max_dococc := None;
+     min_docfreq := None; max_docfreq := None |}.
+Definition hist_corpora : list (list (list Z)) := [[[1; 1; 2; 9; 9]]; [[2; 2; 1; 9]; [2; 9]]].
+Notation step_fl := (fit_step Z Z.eqb Z.ltb (fun _ => false) f32div_fl f64div_fl f64to32_fl one64_fl).
+Notation step_aliased_fl := (fit_step_aliased Z Z.eqb Z.ltb (fun _ => false) f32div_fl f64div_fl f64to32_fl one64_fl).
+
+Theorem C05_aliased_history_refuted : exists (c : config Z) (corpora : list (list (list Z))) (i : nat),
+  nth_error (fit_history Z step_aliased_fl c corpora) i <> nth_error (fit_history Z step_fl c corpora) i.
+Proof. exists hist_cfg, hist_corpora, 1%nat. vm_compute. discriminate. Qed.
+Print Assumptions C05_aliased_history_refuted.
+
 (* ---- non-vacuity: concrete instances (integer tokens, IEEE floats) ---- *)
 Definition ex_cfg : config Z :=
   {| ignored := [5]; use_regex := true; max_unique := Some 2%nat; min_occ := Some 2; max_occ := None;
@@ -268,3 +320,15 @@ Example C05_ex_ngram :
   | Err _ => False
   end.
 Proof. vm_compute. split; reflexivity. Qed.
+(* non-vacuity: the second fit keeps token 2 (three occurrences; pruned by the first fit, where it occurs once);
+   the aliased reading loses it *)
+Example C05_ex_history :
+  map (fun r => match r with Ok (d, _) => map fst d | Err _ => [(-1)] end) (fit_history Z step_fl hist_cfg hist_corpora)
+  = [[1]; [2]] /\
+  map (fun r => match r with Ok (d, _) => map fst d | Err _ => [(-1)] end) (fit_history Z step_aliased_fl hist_cfg hist_corpora)
+  = [[1]; []].
+Proof. vm_compute. split; reflexivity. Qed.
+Example C05_ex_extensional :
+  learn_vocab_fl (fun _ => false) (set_ignored hist_cfg [9; 1; 9]) [[1; 1; 2; 2; 9; 9]] None
+  = learn_vocab_fl (fun _ => false) (set_ignored hist_cfg [1; 9]) [[1; 1; 2; 2; 9; 9]] None.
+Proof. vm_compute. reflexivity. Qed.
